@@ -170,10 +170,26 @@ def evaluate(it):
     raise ValueError(k)
 
 
+def ambient():
+    """process-global state a library must leave alone (taken before the package is imported and at the end)"""
+    import decimal
+    import warnings
+    c = decimal.getcontext()
+    return {"decimal": [c.prec, str(c.rounding), c.Emin, c.Emax, c.capitals, getattr(c, "clamp", None),
+                        sorted(str(k) for k, v in c.traps.items() if v)],
+            "sys.path": list(sys.path),
+            "warnings.filters": [repr(f) for f in warnings.filters],
+            "cwd": __import__("os").getcwd()}
+
+
 def main():
     with io.open(sys.argv[1], encoding="utf-8") as f:
         inp = json.load(f)
     out = {"python": ".".join(str(x) for x in sys.version_info[:3]), "import_ok": False, "results": []}
+    import decimal  # noqa  (imported before the snapshot so that the import itself is not counted)
+    import warnings  # noqa
+    import random  # noqa
+    out["ambient_before"] = ambient()
     try:
         import cvss
         from cvss import CVSS2, CVSS3, CVSS4
@@ -195,6 +211,7 @@ def main():
     for i in idx:
         results[i] = evaluate(items[i])
     out["results"] = results
+    out["ambient_after"] = ambient()
     _dump(out)
 
 
